@@ -243,6 +243,6 @@ theorem wf_coreS {k : Nat} : ∀ (v : View), v.wf k = true → v.coreS = true
     simp only [View.coreS, wf_coreS a h.1.2, wf_coreS b h.2, Bool.and_self]
   | .forKeyed _ _, _ => rfl
   | .scope _ _ _, h => by simp [View.wf] at h
-  | .forRows _ _ _, h => by simp [View.wf] at h
+  | .forRows _ _ _ _, h => by simp [View.wf] at h
 
 end Leptos.RView
